@@ -183,8 +183,10 @@ def main(argv=None):
     )
     ev = dict(property_id=pid, tier=tier, seed=seed, level="proof", coverage=cov,
               assumptions=spec.get("assumptions", []), wall_s=round(time.time() - t0, 2), violations=len(violations))
-    os.makedirs(os.path.join(VERIF, "evidence"), exist_ok=True)
-    with open(os.path.join(VERIF, "evidence", pid + ".json"), "w") as f:
+    # a run without the proof stage (development aid) never overwrites the evidence of a full run
+    evdir = os.path.join(VERIF, "evidence") if not args.no_proof else os.path.join(coqrun.BUILD, "evidence_noproof")
+    os.makedirs(evdir, exist_ok=True)
+    with open(os.path.join(evdir, pid + ".json"), "w") as f:
         json.dump(ev, f, indent=1, default=str)
     if rc == 0:
         print("OK property=%s tier=%s seed=%d evaluations=%d distinct=%d theorems=%d/%d wall=%.1fs" % (
